@@ -13,8 +13,9 @@ from __future__ import annotations
 
 import z3
 
-from contracts.c16_derivatives import F1, F2, FD, FP, Ffun, _grad_inv, ln, quotient_ok
+from contracts.c16_derivatives import F1, F2, FD, FP, STEP, Ffun, _grad_inv, ln, quotient_ok
 from pyvc.contract import Contract, LoopSpec, register, schema
+from pyvc.plug_c16 import TByStep
 from pyvc.values import TBool, TDict, TInt, TList, TNone, TReal, TStr, TVal
 
 schema(FD + "#par", {"f_pointer": FP, "_step": TReal, "_normalize": TBool, "_parallel": TBool, "_design_space": TNone,
@@ -40,12 +41,10 @@ class _Grad(Contract):
     c16 = True
     returns = TList(F1)
     loops = {0: LoopSpec(anchor="range(n_perturbations)", modifies=("gradient",), local_types={"gradient": TList(F1)}, inv=_grad_inv)}
-    per_component = False
-
     def requires(self, c):
         x, P = c.old.input_values, c.old.input_perturbations
         out = [("perturbation-shape", ln(P, 0) == ln(x)), _fixed_output_dimension()]
-        if self.per_component:
+        if not z3.is_expr(c.old.step):
             # what _generate_perturbations returns with a design space: one step per perturbation
             out.append(("one-step-per-perturbation", ln(c.old.step) == ln(P, 1)))
         return out
@@ -59,31 +58,11 @@ class _Grad(Contract):
 
 
 @register
-class ParallelGradScalarStep(_Grad):
+class ParallelGrad(_Grad):
     targets = (FD + "._compute_parallel_grad",)
     self_schema = FD + "#par"
-    params = {"input_values": F1, "input_perturbations": F2, "step": TReal}
+    params = {"input_values": F1, "input_perturbations": F2, "step": STEP}  # one global step, or one step per perturbation
     modifies = ("self",)  # self._function_kwargs
-
-
-@register
-class ParallelGradStepArray(_Grad):
-    targets = (FD + "._compute_parallel_grad",)
-    variant = "steps"
-    self_schema = FD + "#par"
-    params = {"input_values": F1, "input_perturbations": F2, "step": F1}
-    modifies = ("self",)
-    per_component = True
-
-
-@register
-class SequentialGradStepArray(_Grad):
-    targets = (FD + "._compute_grad",)
-    variant = "steps"
-    prop = ("C16",)
-    self_schema = FD + "#nods"
-    params = {"input_values": F1, "input_perturbations": F2, "step": F1}
-    per_component = True
 
 
 # ============================================================================ DisciplineJacApprox._compute_variable_indices
@@ -251,25 +230,36 @@ class CenteredGeneratePerturbationsNoDesignSpace(Contract):
     prop = ("C16",)
     self_schema = CD + "#nods"
     numpy = "precise"
-    params = {"input_values": F1, "input_indices": TList(TInt), "step": TReal}
-    returns = TTuple(F2, TReal)
+    c16 = True
+    params = {"input_values": F1, "input_indices": TList(TInt), "step": STEP}  # one global step, or one step per differentiated component
+    returns = TByStep(TTuple(F2, TReal), TTuple(F2, F1))
 
     def requires(self, c):
-        return idx_ok(c.old.input_indices, ln(c.old.input_values))
+        out = idx_ok(c.old.input_indices, ln(c.old.input_values))
+        if not z3.is_expr(c.old.step):
+            out.append(("one-step-per-component", ln(c.old.step) == c.old.input_indices.n))
+        return out
 
     def ensures(self, c):
-        x, idx, h = c.old.input_values, c.old.input_indices, c.old.step
+        x, idx, h0 = c.old.input_values, c.old.input_indices, c.old.step
         P, s = c.result_value
         Pv = C.View(c._new_heap, P, c.st)
         i, k, q = z3.Int("i!gp"), z3.Int("k!gp"), z3.Int("q!gp")
         rng = z3.And(0 <= i, i < ln(x), 0 <= k, k < idx.n)
+        if z3.is_expr(h0):
+            step_at = lambda t: h0  # noqa: E731
+            returned = ("step-returned", s.term == h0)
+        else:
+            step_at = lambda t: el(h0, t)  # noqa: E731
+            Sv = C.View(c._new_heap, s, c.st)
+            returned = ("step-returned", z3.And(ln(Sv) == idx.n, z3.ForAll([k], z3.Implies(z3.And(0 <= k, k < idx.n), el(Sv, k) == el(h0, k)))))
         return [
             ("shape", z3.And(ln(Pv, 0) == ln(x), ln(Pv, 1) == 2 * idx.n)),
-            ("forward-columns", z3.ForAll([i, k], z3.Implies(rng, el(Pv, i, k) == el(x, i) + z3.If(i == idx.elems[k], h, z3.RealVal(0))))),
+            ("forward-columns", z3.ForAll([i, k], z3.Implies(rng, el(Pv, i, k) == el(x, i) + z3.If(i == idx.elems[k], step_at(k), z3.RealVal(0))))),
             # (absolute column index q = n + k: E-matching friendly)
             ("backward-columns", FA([i, q], z3.Implies(z3.And(0 <= i, i < ln(x), idx.n <= q, q < 2 * idx.n),
-                                                               el(Pv, i, q) == el(x, i) - z3.If(i == idx.elems[q - idx.n], h, z3.RealVal(0))), patterns=[el(Pv, i, q)])),
-            ("step-returned", s.term == h),
+                                                               el(Pv, i, q) == el(x, i) - z3.If(i == idx.elems[q - idx.n], step_at(q - idx.n), z3.RealVal(0))), patterns=[el(Pv, i, q)])),
+            returned,
         ]
 
 
@@ -303,7 +293,7 @@ class CenteredComputeGrad(Contract):
     self_schema = CD + "#nods"
     numpy = "precise"
     c16 = True
-    params = {"input_values": F1, "input_perturbations": F2, "step": TReal}
+    params = {"input_values": F1, "input_perturbations": F2, "step": STEP}  # (not used: the quotient divides by the distance between the two points)
     returns = TList(F1)
 
     fun_output_dim = z3.Int("m_out")  # see the precondition output-dimension-is-fixed
